@@ -103,7 +103,16 @@ def fam_ops(tier, seed):
     for (on, of), (in_, if_) in itertools.product(UNARY, UNARY):
         for an, af in (atoms[0], atoms[2], atoms[10], atoms[5]):
             uu.append(("%s(%s_%s)" % (on, in_, an), (lambda of=of, if_=if_, af=af: of(if_(af())))))
-    chosen = list(atoms) + (uu if tier != "quick" else uu[::2] + uu[1::4])
+    # lookaheads whose body gets further than what follows them (the inner failures must be dropped)
+    hand = [
+        ("neg_multi_then_fail", lambda: Seq(Neg(Seq(Lit("a"), Lit("a"), Lit("b"))), Call("char"), Lit("x"))),
+        ("pos_opt_then_fail", lambda: Seq(Pos(Seq(Lit("a"), Lit("a"), Opt(Lit("b")))), Lit("a"), Lit("x"))),
+        ("neg_clo_then_fail", lambda: Seq(Neg(Seq(Clo(Lit("a")), Lit("b"))), Lit("a"), Lit("x"))),
+        ("neg_in_clo_then_fail", lambda: Seq(Clo(Seq(Neg(Seq(Lit("a"), Lit("b"))), Call("char"))), Lit("x"))),
+        ("pos_fail_inner_further", lambda: Choice(Seq(Pos(Seq(Lit("a"), Lit("a"), Lit("b"))), Lit("a")), Lit("b"))),
+        ("nested_la_then_fail", lambda: Seq(Neg(Pos(Seq(Lit("a"), Lit("a"), Lit("b")))), Lit("a"), Lit("x"))),
+    ]
+    chosen = list(atoms) + hand + (uu if tier != "quick" else uu[::2] + uu[1::4])
     chosen += d1 if n_d1 >= len(d1) else (d1[:55] + rnd.sample(d1[55:], n_d1 - 55) if n_d1 > 55 else rnd.sample(d1, n_d1))
     rnd.shuffle(deeper)
     out = []
